@@ -24,7 +24,7 @@ from sim.clock import Clock, SimTimeout  # noqa: E402
 
 CHILD_WALL_S = 60          # harness safety only; never a verdict
 SHRINK_EVALS = 500
-MAX_BAD_CASES = 25          # a round stops early once this many cases violated (keeps broken trees cheap)
+MAX_BAD_CASES = 10          # a round stops early once this many cases violated (keeps broken trees cheap)
 MAX_REPORTED = 6            # distinct (class, site) violations minimised per round
 
 
